@@ -46,15 +46,17 @@ public:
      * \param[in] term Term to be added
      */
     void add_term(TermType const& term) {
-        typename std::set<TermType, Compare>::iterator it = data.find(term);
-        if(it == data.end()) { // new term
-            data.insert(term);
-        } else {               // similar term
-            TermType sum = *it;
+        // Comparison with a tolerance is not transitive, so find() can miss a stored term that
+        // insert() then regards as equivalent. Let insert() decide and never drop what it refuses.
+        std::pair<typename std::set<TermType, Compare>::iterator, bool> res = data.insert(term);
+        if(!res.second) {      // similar term
+            TermType sum = *res.first;
             sum += term;
-            data.erase(*it);
+            data.erase(res.first);
+            // The merged term may have moved onto another stored term (poles are averaged):
+            // add it again so that it is merged with that one instead of being lost.
             if(!is_negligible(sum, data.size() + 1))
-                data.insert(sum);
+                add_term(sum);
         }
     }
 
